@@ -482,7 +482,7 @@ func (k *ksGen) removeAndMaybeReimport() {
 }
 
 func genSecKeys(g *Gen) {
-	nHist := g.Scale(70, 1500)
+	nHist := g.Scale(70, 1000)
 	for h := 0; h < nHist; h++ {
 		k := &ksGen{g: g, r: g.Rng, pub: pubPass, present: map[string]bool{}, pass: map[string]string{}, ent: map[string]string{},
 			nExt: map[string]int{}, addrs: map[string][]string{}, addrIdx: map[string]int{}, ctx: map[string]string{}}
@@ -626,6 +626,11 @@ func (s *signGen) defineSignTx(ins []string, nOut int, total int64) string {
 		o = "-"
 	}
 	s.l.op("tx-sign", "tx %s %d %s %s", name, 900000+s.nS, strings.Join(ins, ";"), o)
+	if s.r.Intn(3) == 0 { // lock time and payload enter the signature hash
+		pl := make([]byte, s.r.Intn(30))
+		s.r.Read(pl)
+		s.l.op("tx-lock-payload", "txlock %s %d %s", name, []uint64{0, 1, 499999999, 500000000, 1 << 40, 1<<64 - 1}[s.r.Intn(6)], hexTok(pl))
+	}
 	return name
 }
 
